@@ -296,7 +296,7 @@ pub fn run(tier: Tier, seed: u64) -> i32 {
     ];
     let h = ZobristHasher::create_zobrist_hasher();
     let starts = workload::start_positions(seed, 30).unwrap_or_default();
-    let n_jobs = tier.pick(64usize, 640);
+    let n_jobs = tier.pick(160usize, 1600);
     let results = par::par_map(n_jobs, |j| {
         let mut acc = Acc::new();
         let mut rng = Rng::stream(seed, 11_000 + j as u64);
